@@ -71,10 +71,26 @@ pub struct Transcript {
 /// Hook to alter messages in flight: (kind, round, aggregator, bytes) -> Option<replacement>.
 pub type Tamper<'a> = &'a dyn Fn(&str, usize, usize, &[u8]) -> Option<Vec<u8>>;
 
+/// Hook on the *list* of encoded verifier shares of a round (drop / duplicate / reorder).
+pub type SharesHook<'a> = &'a dyn Fn(usize, Vec<Vec<u8>>) -> Vec<Vec<u8>>;
+
 pub struct VerifyOpts<'a> {
     /// pass every message through its wire encoding
     pub wire: bool,
     pub tamper: Option<Tamper<'a>>,
+    pub shares_hook: Option<SharesHook<'a>>,
+}
+
+impl<'a> VerifyOpts<'a> {
+    pub fn wire() -> Self {
+        VerifyOpts { wire: true, tamper: None, shares_hook: None }
+    }
+    pub fn direct() -> Self {
+        VerifyOpts { wire: false, tamper: None, shares_hook: None }
+    }
+    pub fn tamper(t: Tamper<'a>) -> Self {
+        VerifyOpts { wire: true, tamper: Some(t), shares_hook: None }
+    }
 }
 
 /// Run verification of one report among all aggregators (any number of rounds).
@@ -187,6 +203,16 @@ where
             };
             st2.push(st);
             sh2.push(sh);
+        }
+        if let Some(h) = &opts.shares_hook {
+            let list = h(round, tr.verifier_shares[round].clone());
+            sh2.clear();
+            for (i, b) in list.iter().enumerate() {
+                match V::VerifierShare::get_decoded_with_param(&states[0], b) {
+                    Ok(x) => sh2.push(x),
+                    Err(e) => return fail(Stage::CodecVerifierShare(round, i), e),
+                }
+            }
         }
         let msg = match crate::engine::catch(|| vdaf.verifier_shares_to_message(ctx, agg_param, sh2)) {
             Ok(Ok(m)) => m,
